@@ -60,13 +60,16 @@ SMALL_PROBLEMS = [
 
 INVALID_PROBLEM = {
     "forest": [("S", 0), ("S", -2), ("p", -0.1), ("p", 1.0001)],
-    "de_moor": [("max_demand", 0), ("demand_gamma_mean", 0.0), ("demand_gamma_cov", 0.0), ("demand_gamma_cov", -1.0),
+    "de_moor": [("max_demand", 0), ("max_demand", -3), ("demand_gamma_mean", 0.0), ("demand_gamma_mean", -2.0), ("demand_gamma_cov", 0.0), ("demand_gamma_cov", -1.0),
+                ("max_useful_life", -1), ("lead_time", -1), ("max_order_quantity", -2),
                 ("max_useful_life", 0), ("lead_time", 0), ("max_order_quantity", 0), ("issue_policy", "xifo"),
                 ("issue_policy", "FIFO")],
-    "hendrix": [("max_useful_life", 0), ("demand_poisson_mean_a", 0.0), ("demand_poisson_mean_b", -1.0),
+    "hendrix": [("max_useful_life", 0), ("demand_poisson_mean_a", 0.0), ("demand_poisson_mean_a", -1.0), ("demand_poisson_mean_b", -1.0),
+                ("demand_poisson_mean_b", 0.0), ("max_order_quantity_a", -1), ("max_order_quantity_b", 0),
                 ("substitution_probability", -0.01), ("substitution_probability", 1.5), ("max_order_quantity_a", 0),
                 ("max_order_quantity_b", -1)],
-    "mirjalili": [("max_demand", 0), ("max_useful_life", 0), ("max_order_quantity", 0),
+    "mirjalili": [("max_demand", 0), ("max_demand", -1), ("max_useful_life", 0), ("max_order_quantity", 0), ("max_order_quantity", -4),
+                  ("weekday_demand_negbin_n", [0.0] + [1.0] * 6), ("weekday_demand_negbin_delta", [0.0] + [1.0] * 6),
                   ("weekday_demand_negbin_n", [1.0] * 6), ("weekday_demand_negbin_n", [1.0] * 6 + [0.0]),
                   ("weekday_demand_negbin_delta", [1.0] * 6 + [-2.0]), ("weekday_demand_negbin_delta", [1.0] * 8),
                   ("useful_life_at_arrival_distribution_c_0", [0.1, 0.2, 0.3]), ("useful_life_at_arrival_distribution_c_1", [])],
@@ -84,7 +87,7 @@ def strategy(tier, shard):
         pparams = dict(pparams)
         gam = draw(st.sampled_from([0.0, 1e-9, 0.3, 0.9, 0.99, 1 - 1e-9, 1.0]))
         sp = dict(
-            epsilon=draw(st.sampled_from([1e-12, 1e-9, 1e-6, 1e-3, 0.09, 0.5, 1.0, 9.0, 10.0, 99.0, 100.0, 1e3, 1e6])),
+            epsilon=draw(st.sampled_from([1e-12, 1e-9, 1e-6, 1e-3, 0.09, 0.5, 1.0, 9.0, 10.0, 99.0, 100.0, 1e3, 1e6, 1, 10, 100])),
             max_batch_size=draw(st.sampled_from([1, 2, 7, 64, 1024, 10**6])),
             verbose=draw(st.sampled_from([0, 0, 0, 1, 2, 3, 4])),
             jax_double_precision=True,
@@ -379,6 +382,11 @@ def enumerate_run(tier, shard, nshards):
             sp = _valid_sp(sk, base_sp)
             sp.update(gamma=1.0, period=1)
             cases.append(dict(skind=sk, pkind="forest", pparams=dict(first["forest"]), sparams=sp, invalid=dict(where="solver", field="period", value=1), precision=False))
+    for sk in SOLVERS:  # integer-valued epsilon is a valid positive epsilon for every solver class
+        for e_int in (1, 100):
+            sp = _valid_sp(sk, base_sp)
+            sp["epsilon"] = e_int
+            cases.append(dict(skind=sk, pkind="forest", pparams=dict(first["forest"]), sparams=sp, invalid=None, precision=False))
     n_eval = n_nt = 0
     classes = Counter()
     failures, samples, seen = [], [], set()
@@ -387,11 +395,11 @@ def enumerate_run(tier, shard, nshards):
             continue
         v = judge(c)
         n_eval += 1
-        classes["enumerated-invalid-" + c["invalid"]["where"]] += 1
+        classes["enumerated-invalid-" + c["invalid"]["where"] if c["invalid"] else "enumerated-int-epsilon"] += 1
         if v["ok"]:
             n_nt += 1
             if len(samples) < 2:
-                samples.append(dict(skind=c["skind"], pkind=c["pkind"], invalid=c["invalid"]))
+                samples.append(dict(skind=c["skind"], pkind=c["pkind"], invalid=c["invalid"], epsilon=c["sparams"].get("epsilon")))
         elif v["bucket"] not in seen:
             seen.add(v["bucket"])
             failures.append(dict(case=c, verdict=v))
